@@ -165,6 +165,147 @@ def regex_constants(nm_tree, fac_tree, ign_tree):
     return consts
 
 
+
+# ------------------------------------------------------------------ touched_kinds: component of the model -> record kinds
+UPDATE = 'src/pharmpy/model/external/nonmem/update.py'
+MODEL = 'src/pharmpy/model/external/nonmem/model.py'
+EDIT_METHODS = {'insert_record', 'remove_records', 'replace_records', 'replace_all'}
+GETTERS = {'get_pred_pk_record': ['PRED', 'PK'], 'get_error_pred_record': ['PRED', 'ERROR'], 'get_pk_record': ['PK'],
+           'get_error_record': ['ERROR'], 'get_des_record': ['DES']}
+# update functions whose component cannot be read off an `old_X` snapshot mention (documented rule of the translator)
+FIXED_COMPONENTS = {'abbr_translation': {'random_variables'},
+                    # the initial values in $OMEGA / $SIGMA are parameters of the model
+                    'update_random_variables': {'parameters'},
+                    'update_sizes': {'parameters', 'random_variables', 'statements'}}
+
+
+def _literal_prefix(node):
+    if isinstance(node, ast.Constant) and isinstance(node.value, str):
+        return node.value
+    if isinstance(node, ast.JoinedStr):
+        return node.values[0].value if node.values and isinstance(node.values[0], ast.Constant) else ''
+    return None
+
+
+def touched_table():
+    """{component: sorted record kinds} — which kinds of records update_source may regenerate when a component of the model
+    differs from its old_* snapshot.  Kinds of an update function = record names in `$NAME...` string literals it contains,
+    names passed to get_records / replace_all / local functions, records returned by the get_*_record getters, closed over
+    the functions of update.py it calls; its components = old_X snapshots mentioned in the call, in the enclosing `if` tests
+    of update_source and in its own (closed) body, or FIXED_COMPONENTS.  Over-approximation, validated on every real trace."""
+    import re
+    utree = ast.parse((REPO / UPDATE).read_text())
+    mtree = ast.parse((REPO / MODEL).read_text())
+    fac = ast.parse((REPO / FACTORY).read_text())
+    known = [k for k, _, _ in known_records(fac)]
+    minlen, rules, _ = canonical_rules(fac)
+    names = set(known) | set(record_order(ast.parse((REPO / NMTRAN).read_text())))
+
+    def canon(bare):
+        bare = bare.upper()
+        if len(bare) >= minlen:
+            for n in known:
+                if n.startswith(bare):
+                    return n
+            for r in rules:
+                if (r[0] == 'prefix' and r[1].startswith(bare)) or (r[0] == 'eq' and bare in r[1]):
+                    return r[2]
+        return bare
+
+    funcs = {n.name: n for n in utree.body if isinstance(n, ast.FunctionDef)}
+
+    def base(fn):
+        kinds, calls, edits, olds = set(), set(), False, set()
+        for node in ast.walk(fn):
+            if isinstance(node, ast.Call):
+                f = node.func
+                named_args = False
+                if isinstance(f, ast.Attribute):
+                    edits = edits or f.attr in EDIT_METHODS
+                    kinds.update(GETTERS.get(f.attr, []))
+                    named_args = f.attr in ('get_records', 'replace_all', '_get_first_record')
+                elif isinstance(f, ast.Name) and f.id in funcs:
+                    calls.add(f.id)
+                    named_args = True
+                if named_args:
+                    for a in node.args:
+                        if isinstance(a, ast.Constant) and isinstance(a.value, str) and a.value in names:
+                            kinds.add(a.value)
+            if isinstance(node, ast.Attribute) and node.attr.startswith('old_'):
+                olds.add(node.attr[4:])
+            p = _literal_prefix(node)
+            if p:
+                m = re.match(r'\s*\$([A-Za-z]+)', p)
+                if m:
+                    kinds.add(canon(m.group(1)))
+        return kinds, calls, edits, olds
+
+    info = {name: base(fn) for name, fn in funcs.items()}
+
+    def closure(f, seen=()):
+        if f in seen:
+            return set(), False, set()
+        k, c, e, o = info[f]
+        k, o = set(k), set(o)
+        for g in c:
+            k2, e2, o2 = closure(g, seen + (f,))
+            k |= k2
+            e = e or e2
+            o |= o2
+        return k, e, o
+
+    cls = _find(mtree, ast.ClassDef, 'Model')
+    us = [n for n in cls.body if isinstance(n, ast.FunctionDef) and n.name == 'update_source']
+    if len(us) != 1:
+        raise Refused('Model.update_source not found')
+    table = {}
+
+    def olds_in(node):
+        return {n.attr[4:] for n in ast.walk(node) if isinstance(n, ast.Attribute) and n.attr.startswith('old_')}
+
+    def add(comps, kinds):
+        for c in comps:
+            table.setdefault(c, set()).update(kinds)
+
+    def visit(stmts, ctx):
+        for st in stmts:
+            if isinstance(st, ast.If):
+                c2 = ctx | olds_in(st.test)
+                visit(st.body, c2)
+                visit(st.orelse, c2)
+                continue
+            if isinstance(st, ast.For):
+                visit(st.body, ctx)
+                visit(st.orelse, ctx)
+                continue
+            if isinstance(st, (ast.While, ast.With, ast.Try, ast.FunctionDef, ast.ClassDef)):
+                raise Refused('unexpected compound statement in update_source: ' + type(st).__name__)
+            for node in ast.walk(st):
+                if not isinstance(node, ast.Call):
+                    continue
+                f = node.func
+                if isinstance(f, ast.Name) and f.id in funcs:
+                    k, e, o = closure(f.id)
+                    if not e:
+                        continue
+                    comps = ctx | olds_in(node) | o | FIXED_COMPONENTS.get(f.id, set())
+                    if not comps:
+                        raise Refused('update_source: no component found for ' + f.id)
+                    if not k:
+                        raise Refused('update_source: no record kind found for ' + f.id)
+                    add(comps, k)
+                elif isinstance(f, ast.Attribute) and f.attr == 'get_records':
+                    if not (node.args and isinstance(node.args[0], ast.Constant)):
+                        raise Refused('update_source: get_records with a computed name')
+                    if not ctx:
+                        raise Refused('update_source: inline record access outside a snapshot test')
+                    add(ctx, {node.args[0].value})
+                elif isinstance(f, ast.Attribute) and f.attr in EDIT_METHODS and not ctx:
+                    raise Refused('update_source: inline edit outside a snapshot test')
+    visit(us[0].body, set())
+    return {c: sorted(k) for c, k in sorted(table.items())}
+
+
 EXPECT_SPLIT = "re.split('^([ \\\\t]*\\\\$)', text, flags=re.MULTILINE)"
 EXPECT_NAME = "re.match('(\\\\s*\\\\$[A-za-z]+)(.*)', line, flags=re.MULTILINE | re.DOTALL)"
 
@@ -211,7 +352,7 @@ def python_space_ranges():
 def generate(outfile):
     srcs = {}
     trees = {}
-    for rel in (FACTORY, NMTRAN, PARSERS, IGNORED, SIZES):
+    for rel in (FACTORY, NMTRAN, PARSERS, IGNORED, SIZES, UPDATE, MODEL):
         srcs[rel] = (REPO / rel).read_text()
         trees[rel] = ast.parse(srcs[rel])
     known = known_records(trees[FACTORY])
@@ -220,6 +361,7 @@ def generate(outfile):
     psteps = parser_steps(trees[PARSERS])
     consts = regex_constants(trees[NMTRAN], trees[FACTORY], trees[IGNORED])
     thr = sizes_thresholds(trees[SIZES])
+    touched = touched_table()
     if consts.get('split') != EXPECT_SPLIT:
         raise Refused('record-splitting regex changed: ' + str(consts.get('split')))
     if consts.get('name') != EXPECT_NAME:
@@ -244,6 +386,10 @@ def generate(outfile):
         f'Definition gen_sizes : sizes_thr := mkSizesThr {thr[0]}%nat {thr[1]}%nat {thr[2]}%nat.\n'
         'Example gen_sizes_match : Nat.eqb (lth_bound gen_sizes) (lth_bound static_sizes) && Nat.eqb (pc_default gen_sizes) '
         '(pc_default static_sizes) && Nat.eqb (pc_max gen_sizes) (pc_max static_sizes) = true.\nProof. vm_compute. reflexivity. Qed.\n'
+        'Definition gen_touched : list (text * list text) := '
+        + lst([f'({T(c)}, {lst([T(k) for k in ks])})' for c, ks in touched.items()]) + '.\n'
+        'Example gen_touched_match : list_eqb (fun a b => text_eqb (fst a) (fst b) && list_eqb text_eqb (snd a) (snd b)) '
+        'gen_touched static_touched = true.\nProof. vm_compute. reflexivity. Qed.\n'
         'Example gen_space_match : list_eqb (fun a b => N.eqb (fst a) (fst b) && N.eqb (snd a) (snd b)) gen_space space_ranges = true.\n'
         'Proof. vm_compute. reflexivity. Qed.\n'
         'Example gen_tables_match : tables_eqb gen_tables static_tables = true.\nProof. vm_compute. reflexivity. Qed.\n'
@@ -256,5 +402,5 @@ def generate(outfile):
     outfile.parent.mkdir(parents=True, exist_ok=True)
     outfile.write_text(text)
     sha = {rel: hashlib.sha256(s.encode()).hexdigest()[:16] for rel, s in srcs.items()}
-    return {'obligations': 7, 'sha': sha, 'known': len(known), 'synonyms': len(rules), 'order': len(order),
+    return {'obligations': 8, 'touched': touched, 'sha': sha, 'known': len(known), 'synonyms': len(rules), 'order': len(order),
             'parsers': len(psteps)}
